@@ -390,3 +390,446 @@ def _env_places(j, env_local, upvar_local):
             return {"l": upvar_local[proj[k]["f"]], "p": [_env_places(x, env_local, upvar_local) for x in proj[k + 1:]]}
         return j
     return {k_: (v if k_ in ("ty", "from", "of", "dty", "fty", "f", "k") else _env_places(v, env_local, upvar_local)) for k_, v in j.items()}
+
+
+# ---------------------------------------------------------------- Option / Result / bool combinators
+# `x.map(|v| ..).ok_or(e)` and `match x { Some(v) => Ok(..), None => Err(e) }` are the same program.  The rule
+# engines know the second spelling; this pass rewrites the first into it: a switch on the receiver's
+# discriminant, the closure body spliced into the arm that calls it, and the result built by an aggregate.
+# A combinator applied directly to the result of another one is threaded arm by arm (no merge in between),
+# so every intermediate value keeps a single definition.
+#
+# It is a *second* representation of the same program (used by ./check only to re-examine a report, see
+# DESIGN.md "two representations"): both are faithful, so a clause proved on either one holds.
+OPT = "core::option::Option"
+RES = "core::result::Result"
+VNAMES = {OPT: ["None", "Some"], RES: ["Ok", "Err"]}
+_O = "core::option::Option::<T>::"
+_R = "core::result::Result::<T, E>::"
+_B = "core::bool::<impl bool>::"
+COMBINATORS = {
+    _O + "map": (OPT, {1: ("wrapcall", OPT, 1, 1), 0: ("unit", OPT, 0)}),
+    _O + "and_then": (OPT, {1: ("call", 1), 0: ("unit", OPT, 0)}),
+    _O + "ok_or": (OPT, {1: ("wrap", RES, 0), 0: ("wraparg", RES, 1, 1)}),
+    _O + "ok_or_else": (OPT, {1: ("wrap", RES, 0), 0: ("wrapcall0", RES, 1, 1)}),
+    _O + "map_or": (OPT, {1: ("call", 2), 0: ("arg", 1)}),
+    _O + "map_or_else": (OPT, {1: ("call", 2), 0: ("call0", 1)}),
+    _O + "unwrap_or": (OPT, {1: ("payload",), 0: ("arg", 1)}),
+    _O + "unwrap_or_else": (OPT, {1: ("payload",), 0: ("call0", 1)}),
+    _O + "or": (OPT, {1: ("wrap", OPT, 1), 0: ("arg", 1)}),
+    _O + "or_else": (OPT, {1: ("wrap", OPT, 1), 0: ("call0", 1)}),
+    _O + "filter": (OPT, {1: ("filter", 1), 0: ("unit", OPT, 0)}),
+    _R + "map": (RES, {0: ("wrapcall", RES, 0, 1), 1: ("wrap", RES, 1)}),
+    _R + "map_err": (RES, {0: ("wrap", RES, 0), 1: ("wrapcall", RES, 1, 1)}),
+    _R + "and_then": (RES, {0: ("call", 1), 1: ("wrap", RES, 1)}),
+    _R + "ok": (RES, {0: ("wrap", OPT, 1), 1: ("unit", OPT, 0)}),
+    _R + "err": (RES, {0: ("unit", OPT, 0), 1: ("wrap", OPT, 1)}),
+    _R + "unwrap_or": (RES, {0: ("payload",), 1: ("arg", 1)}),
+    _R + "unwrap_or_else": (RES, {0: ("payload",), 1: ("call", 1)}),
+    _R + "or_else": (RES, {0: ("wrap", RES, 0), 1: ("call", 1)}),
+    _B + "then": ("bool", {1: ("wrapcall0", OPT, 1, 1), 0: ("unit", OPT, 0)}),
+    _B + "then_some": ("bool", {1: ("wraparg", OPT, 1, 1), 0: ("unit", OPT, 0)}),
+}
+MAX_CLOSURE_BLOCKS = 120
+
+
+def _place_of(o):
+    for k in ("c", "m"):
+        if k in o:
+            return o[k]
+    return None
+
+
+def _bare_local(o):
+    p = _place_of(o)
+    return p["l"] if p is not None and not p["p"] else None
+
+
+def _ty_args(ty, adt):
+    if isinstance(ty, dict) and ty.get("k") == "adt" and ty.get("n") == adt:
+        return ty.get("a") or []
+    return None
+
+
+class _Lower:
+    def __init__(self, caller, by_id, ctors=None):
+        self.c = caller
+        self.by_id = by_id
+        self.ctors = ctors or {}
+        self.arms = {}       # dest local -> {"cont": block, "arms": [(exit block, adt, variant, payload operand | None)]}
+        self.used_closures = []
+
+    # -- small builders
+    def new_local(self, ty, name=None):
+        self.c["locals"].append({"ty": copy.deepcopy(ty) if ty is not None else {"k": "infer"}, "lowered": True,
+                                 **({"name": name} if name else {})})
+        return len(self.c["locals"]) - 1
+
+    def new_block(self, stmts, term):
+        self.c["blocks"].append({"cleanup": False, "stmts": stmts, "term": term, "lowered": True})
+        return len(self.c["blocks"]) - 1
+
+    def single_def(self, local):
+        found = []
+        for blk in self.c["blocks"]:
+            for st in blk["stmts"]:
+                if st.get("s") == "assign" and st["p"]["l"] == local and not st["p"]["p"]:
+                    found.append(st)
+            t = blk["term"]
+            if t["t"] == "call" and t["dest"]["l"] == local:
+                found.append(t)
+        return found[0] if len(found) == 1 else None
+
+    def fn_of(self, o):
+        """how to call the function value in operand o: ("closure", raw body, agg stmt) | ("item", fn ref) | None"""
+        k = o.get("k")
+        if k is not None:
+            return ("item", k["fn"]) if isinstance(k, dict) and isinstance(k.get("fn"), dict) else None
+        l = _bare_local(o)
+        if l is None:
+            return None
+        d = self.single_def(l)
+        if d is None or d.get("s") != "assign":
+            return None
+        rv = d["rv"]
+        if rv["r"] == "use" and "k" in rv["o"]:
+            return self.fn_of(rv["o"])
+        if rv["r"] == "agg" and rv.get("kind") == "closure" and rv.get("n") in self.by_id:
+            h = self.by_id[rv["n"]]
+            if h.get("coroutine_kind") or len(h["blocks"]) > MAX_CLOSURE_BLOCKS:
+                return None
+            if any(b["term"]["t"] in ("yield", "coroutinedrop", "tailcall", "asm") for b in h["blocks"]):
+                return None
+            if h["id"] == self.c["id"] or self.c["id"].startswith(h["id"] + "::"):
+                return None
+            return ("closure", h, d)
+        return None
+
+    def emit_call(self, fn, args, result, nxt, sp, unwind):
+        """blocks that compute result = fn(args..) and continue at nxt; -> entry block"""
+        if fn[0] == "item":
+            ctor = self.ctors.get(fn[1].get("n"))
+            if ctor is not None and len(args) == 1:
+                # `.map(Form::TwoBytes)`: a tuple-variant constructor used as a function is the aggregate
+                adt, variant, vname = ctor
+                return self.new_block([{"s": "assign", "p": {"l": result, "p": []},
+                                        "rv": {"r": "agg", "kind": "adt", "n": adt, "a": [], "variant": variant, "vname": vname,
+                                               "fields": ["0"], "ops": [copy.deepcopy(args[0])]}, "sp": sp, "lowered": True}],
+                                      {"t": "goto", "to": nxt, "sp": sp})
+            return self.new_block([], {"t": "call", "f": copy.deepcopy(fn[1]), "args": [copy.deepcopy(a) for a in args],
+                                       "dest": {"l": result, "p": []}, "to": nxt, "unwind": unwind, "sp": sp, "fn_sp": sp})
+        _, h, agg = fn
+        c = self.c
+        pre = []
+        upv = []
+        for o in agg["rv"]["ops"]:
+            l = _bare_local(o)
+            if l is None:
+                l = self.new_local(None)
+                pre.append({"s": "assign", "p": {"l": l, "p": []}, "rv": {"r": "use", "o": copy.deepcopy(o)}, "sp": sp})
+            upv.append(l)
+        loff = len(c["locals"])
+        boff = len(c["blocks"]) + 1            # +1: the entry block created below comes first
+        for loc in h["locals"]:
+            nl = copy.deepcopy(loc)
+            nl["inlined_from"] = h["id"]
+            c["locals"].append(nl)
+        argc = h.get("arg_count", 1)
+        if argc - 1 != len(args):
+            # `|(a, b)|` is one parameter; anything else is a shape this pass does not know
+            raise _NoLower()
+        for k, a in enumerate(args):
+            pre.append({"s": "assign", "p": {"l": loff + 2 + k, "p": []}, "rv": {"r": "use", "o": copy.deepcopy(a)}, "sp": sp,
+                        "inl": h["id"]})
+        entry = self.new_block(pre, {"t": "goto", "to": boff, "sp": sp, "inlined_call": h["id"]})
+        assert entry == boff - 1
+        lmap = lambda l, o=loff: l + o
+        bmap = lambda b_, o=boff: b_ + o
+        for blk in h["blocks"]:
+            nb = _remap(copy.deepcopy(blk), lmap, bmap)
+            nb = _env_places(nb, loff + 1, upv)
+            nb["lowered"] = True
+            if nb["term"]["t"] == "return":
+                nb["stmts"].append({"s": "assign", "p": {"l": result, "p": []},
+                                    "rv": {"r": "use", "o": {"m": {"l": loff, "p": []}}}, "sp": sp, "inl": h["id"]})
+                nb["term"] = {"t": "goto", "to": nxt, "sp": sp}
+            c["blocks"].append(nb)
+        self.used_closures.append(h["id"])
+        return entry
+
+    def agg(self, dest, adt, variant, ops, sp):
+        dty = self.c["locals"][dest["l"]].get("ty") if not dest["p"] else None
+        return {"s": "assign", "p": copy.deepcopy(dest),
+                "rv": {"r": "agg", "kind": "adt", "n": adt, "a": copy.deepcopy(_ty_args(dty, adt) or []), "variant": variant,
+                       "vname": VNAMES[adt][variant], "fields": ["0"] if ops else [], "ops": ops}, "sp": sp, "lowered": True}
+
+    def arm(self, action, payload, args, dest, cont, sp, unwind, result_ty):
+        """blocks for one arm; -> (entry block, exit block, (adt, variant, payload operand | None) | None)"""
+        kind = action[0]
+        if kind in ("wrapcall", "wrapcall0", "call", "call0"):
+            argi = action[-1]
+            fn = self.fn_of(args[argi])
+            if fn is None:
+                raise _NoLower()
+            wrap = kind.startswith("wrap")
+            if wrap:
+                rty = fn[1]["locals"][0].get("ty") if fn[0] == "closure" else None
+                r = self.new_local(rty)
+                ex = self.new_block([self.agg(dest, action[1], action[2], [{"m": {"l": r, "p": []}}], sp)],
+                                    {"t": "goto", "to": cont, "sp": sp})
+                known = (action[1], action[2], {"c": {"l": r, "p": []}})
+            else:
+                if dest["p"]:
+                    raise _NoLower()
+                r = self.new_local(self.c["locals"][dest["l"]].get("ty"))
+                ex = self.new_block([{"s": "assign", "p": copy.deepcopy(dest), "rv": {"r": "use", "o": {"m": {"l": r, "p": []}}}, "sp": sp}],
+                                    {"t": "goto", "to": cont, "sp": sp})
+                known = None
+            cargs = [payload] if kind in ("wrapcall", "call") and payload is not None else []
+            if kind in ("wrapcall", "call") and payload is None:
+                raise _NoLower()
+            entry = self.emit_call(fn, cargs, r, ex, sp, unwind)
+            return entry, [(ex, known)]
+        if kind == "wrap":
+            ex = self.new_block([self.agg(dest, action[1], action[2], [copy.deepcopy(payload)], sp)], {"t": "goto", "to": cont, "sp": sp})
+            return ex, [(ex, (action[1], action[2], _as_copy(payload)))]
+        if kind == "wraparg":
+            ex = self.new_block([self.agg(dest, action[1], action[2], [copy.deepcopy(args[action[3]])], sp)],
+                                {"t": "goto", "to": cont, "sp": sp})
+            return ex, [(ex, (action[1], action[2], None))]
+        if kind == "unit":
+            ex = self.new_block([self.agg(dest, action[1], action[2], [], sp)], {"t": "goto", "to": cont, "sp": sp})
+            return ex, [(ex, (action[1], action[2], None))]
+        if kind == "payload":
+            ex = self.new_block([{"s": "assign", "p": copy.deepcopy(dest), "rv": {"r": "use", "o": copy.deepcopy(payload)}, "sp": sp}],
+                                {"t": "goto", "to": cont, "sp": sp})
+            return ex, [(ex, None)]
+        if kind == "filter":
+            # Some(v) => if pred(&v) { Some(v) } else { None }
+            fn = self.fn_of(args[action[1]])
+            if fn is None or payload is None or _bare_local(payload) is None:
+                raise _NoLower()
+            v = _bare_local(payload)
+            r = self.new_local({"k": "ref", "m": False, "t": copy.deepcopy(self.c["locals"][v].get("ty"))})
+            b = self.new_local({"k": "prim", "n": "bool"})
+            ex_some = self.new_block([self.agg(dest, OPT, 1, [{"c": {"l": v, "p": []}}], sp)], {"t": "goto", "to": cont, "sp": sp})
+            ex_none = self.new_block([self.agg(dest, OPT, 0, [], sp)], {"t": "goto", "to": cont, "sp": sp})
+            sw = self.new_block([], {"t": "switch", "d": {"m": {"l": b, "p": []}}, "dty": {"k": "prim", "n": "bool"},
+                                     "targets": [[0, ex_none]], "else": ex_some, "sp": sp})
+            call = self.emit_call(fn, [{"m": {"l": r, "p": []}}], b, sw, sp, unwind)
+            pre = self.new_block([{"s": "assign", "p": {"l": r, "p": []},
+                                   "rv": {"r": "ref", "mut": False, "fake": False, "p": {"l": v, "p": []}}, "sp": sp, "lowered": True}],
+                                 {"t": "goto", "to": call, "sp": sp})
+            return pre, [(ex_some, (OPT, 1, {"c": {"l": v, "p": []}})), (ex_none, (OPT, 0, None))]
+        if kind == "arg":
+            ex = self.new_block([{"s": "assign", "p": copy.deepcopy(dest), "rv": {"r": "use", "o": copy.deepcopy(args[action[1]])}, "sp": sp}],
+                                {"t": "goto", "to": cont, "sp": sp})
+            return ex, [(ex, None)]
+        raise _NoLower()
+
+    def payload_of(self, recv, adt, variant, ty, sp):
+        """(stmt, operand): read the payload of `recv` known to be adt::variant"""
+        p = copy.deepcopy(_place_of(recv))
+        v = self.new_local(ty)
+        p["p"] = p["p"] + [{"dc": variant, "n": VNAMES[adt][variant]}, {"f": 0, "n": "0", "ty": copy.deepcopy(ty) if ty else {"k": "infer"}}]
+        st = {"s": "assign", "p": {"l": v, "p": []}, "rv": {"r": "use", "o": {"m": p}}, "sp": sp, "lowered": True}
+        return st, {"m": {"l": v, "p": []}}
+
+    def lower_at(self, i):
+        c = self.c
+        t = c["blocks"][i]["term"]
+        if t["t"] != "call" or t.get("to") is None:
+            return False
+        n = (t.get("f") or {}).get("n")
+        spec = COMBINATORS.get(n)
+        if spec is None or not t["args"]:
+            return False
+        radt, actions = spec
+        recv, args, dest, cont, sp, unwind = t["args"][0], t["args"], t["dest"], t["to"], t.get("sp"), t.get("unwind")
+        ga = (t.get("f") or {}).get("a") or []
+        if _place_of(recv) is None and radt != "bool":
+            return False
+        keep = (len(c["locals"]), len(c["blocks"]), copy.deepcopy(c["blocks"][i]), len(self.used_closures))
+        saved_exits = None
+        try:
+            rl = _bare_local(recv)
+            chain = self.arms.get(rl) if rl is not None else None
+            blk = c["blocks"][i]
+            if chain is not None and chain["cont"] == i and radt != "bool" and \
+                    all(a[1] == radt for a in chain["arms"]) and self._only_preds(i, [a[0] for a in chain["arms"]]):
+                # ---- threaded: each arm of the previous combinator continues straight into its own arm here
+                own = self._assigned_locals(blk["stmts"])
+                new_arms = []
+                saved_exits = [(a[0], copy.deepcopy(c["blocks"][a[0]]["term"])) for a in chain["arms"]]
+                for (ex, adt_, variant, pay) in chain["arms"]:
+                    ren = {l: self.new_local(c["locals"][l].get("ty"), c["locals"][l].get("name")) for l in own}
+                    lm = lambda l, r_=ren: r_.get(l, l)
+                    stmts = [_remap(copy.deepcopy(s), lm, lambda b_: b_) for s in blk["stmts"]]
+                    a2 = [_remap(copy.deepcopy(a), lm, lambda b_: b_) for a in args]
+                    act = actions[variant]
+                    payload = None
+                    if VNAMES[radt][variant] in ("Some", "Ok", "Err"):
+                        if pay is not None:
+                            payload = copy.deepcopy(pay)
+                        else:
+                            st_, payload = self.payload_of(recv, radt, variant, self._payload_ty(radt, variant, ga), sp)
+                            stmts.append(st_)
+                    # (the copied statements go in first: they define the closures the arm is about to look up)
+                    pre = self.new_block(stmts, {"t": "goto", "to": None, "sp": sp})
+                    entry, exits = self.arm(act, payload, a2, dest, cont, sp, unwind, None)
+                    c["blocks"][pre]["term"]["to"] = entry
+                    c["blocks"][ex]["term"]["to"] = pre
+                    for ex2, known in exits:
+                        new_arms.append((ex2,) + known if known is not None else None)
+                c["blocks"][i] = {"cleanup": False, "stmts": [], "term": {"t": "unreachable", "sp": sp}, "lowered": True}
+                self._register(dest, cont, new_arms)
+                return True
+            # `x.ok_or(e)?` / `.map_err(f)?` on a plain value: the rules read this spelling directly (discharge.unq);
+            # rewriting it would only put a merge in front of the `?`
+            if n.rsplit("::", 1)[-1] in ("ok_or", "ok_or_else", "map_err") and self._feeds_try(cont, dest):
+                raise _NoLower()
+            # ---- plain: switch on the receiver
+            new_arms = []
+            targets = {}
+            for variant, act in sorted(actions.items()):
+                stmts = []
+                payload = None
+                if radt != "bool" and VNAMES[radt][variant] in ("Some", "Ok", "Err"):
+                    st_, payload = self.payload_of(recv, radt, variant, self._payload_ty(radt, variant, ga), sp)
+                    stmts.append(st_)
+                entry, exits = self.arm(act, payload, args, dest, cont, sp, unwind, None)
+                targets[variant] = self.new_block(stmts, {"t": "goto", "to": entry, "sp": sp})
+                for ex2, known in exits:
+                    new_arms.append((ex2,) + known if known is not None else None)
+            if radt == "bool":
+                blk["term"] = {"t": "switch", "d": copy.deepcopy(recv), "dty": {"k": "prim", "n": "bool"},
+                               "targets": [[0, targets[0]]], "else": targets[1], "sp": sp, "lowered": n}
+            else:
+                dl = self.new_local({"k": "prim", "n": "isize"})
+                rty = c["locals"][rl].get("ty") if rl is not None else None
+                blk["stmts"].append({"s": "assign", "p": {"l": dl, "p": []},
+                                     "rv": {"r": "discr", "p": copy.deepcopy(_place_of(recv)), "of": copy.deepcopy(rty) if rty else {"k": "infer"}},
+                                     "sp": sp, "lowered": True})
+                dead = self.new_block([], {"t": "unreachable", "sp": sp})
+                blk["term"] = {"t": "switch", "d": {"m": {"l": dl, "p": []}}, "dty": {"k": "prim", "n": "isize"},
+                               "targets": [[0, targets[0]], [1, targets[1]]], "else": dead, "sp": sp, "lowered": n}
+            self._register(dest, cont, new_arms)
+            return True
+        except _NoLower:
+            del c["locals"][keep[0]:]
+            del c["blocks"][keep[1]:]
+            del self.used_closures[keep[3]:]
+            c["blocks"][i] = keep[2]
+            for ex, term in saved_exits or []:
+                c["blocks"][ex]["term"] = term
+            return False
+
+    def _feeds_try(self, cont, dest):
+        t = self.c["blocks"][cont]["term"]
+        return t["t"] == "call" and (t.get("f") or {}).get("n") == "core::ops::try_trait::Try::branch" and t["args"] and \
+            _bare_local(t["args"][0]) == dest["l"] and not dest["p"]
+
+    def _register(self, dest, cont, new_arms):
+        if dest["p"] or not new_arms or any(a is None for a in new_arms):
+            self.arms.pop(dest["l"], None)
+            return
+        self.arms[dest["l"]] = {"cont": cont, "arms": new_arms}
+
+    def _payload_ty(self, radt, variant, ga):
+        if radt == OPT:
+            return ga[0] if ga else None
+        if radt == RES:
+            return ga[variant] if len(ga) > variant else None
+        return None
+
+    def _assigned_locals(self, stmts):
+        return {s["p"]["l"] for s in stmts if s.get("s") == "assign" and not s["p"]["p"]}
+
+    def _only_preds(self, i, exits):
+        preds = set()
+        for j, blk in enumerate(self.c["blocks"]):
+            t = blk["term"]
+            outs = [t.get(k) for k in BLOCK_KEYS if isinstance(t.get(k), int) and k != "unwind"]
+            outs += [tb for _, tb in t.get("targets", [])]
+            if i in outs:
+                preds.add(j)
+        return preds == set(exits)
+
+
+class _NoLower(Exception):
+    pass
+
+
+def _as_copy(o):
+    p = _place_of(o)
+    return {"c": copy.deepcopy(p)} if p is not None else copy.deepcopy(o)
+
+
+def lower_combinators(bodies, adts=()):
+    """Rewrite Option/Result/bool combinator calls into switches (see above).  -> {body id: number lowered}"""
+    by_id = {b["id"]: b for b in bodies}
+    ctors = {}
+    for a in adts or ():
+        for vi, v in enumerate(a.get("variants", [])):
+            if len(v.get("fields", [])) == 1 and v.get("name"):
+                ctors["%s::%s" % (a["n"], v["name"])] = (a["n"], vi, v["name"])
+    frozen = {k: copy.deepcopy(v) for k, v in by_id.items() if v["defkind"] == "Closure" or "{closure#" in k}
+    done = {}
+    used = set()
+    for caller in bodies:
+        if "mock_inner" in caller["id"]:
+            continue
+        lw = _Lower(caller, frozen, ctors)
+        # reverse postorder from the entry: a chain's first link is lowered before its second
+        order = _rpo(caller)
+        n = 0
+        guard = 0
+        idx = 0
+        while idx < len(order) and guard < 400:
+            guard += 1
+            i = order[idx]
+            idx += 1
+            before = len(caller["blocks"])
+            if lw.lower_at(i):
+                n += 1
+                # the arms (and the spliced closure bodies) may contain further combinators, and the
+                # continuation may be the next link of a chain: revisit in order
+                new = [b_ for b_ in _rpo(caller) if b_ >= before or b_ not in order[:idx]]
+                order = order[:idx] + [b_ for b_ in new if b_ not in order[:idx]]
+        if n:
+            done[caller["id"]] = n
+            used |= set(lw.used_closures)
+    # a closure whose only use was a lowered call now lives in its parent
+    for b in bodies:
+        if b["id"] in used or any(b["id"].startswith(u + "::") for u in used):
+            b["absorbed"] = True
+    return done
+
+
+def _rpo(body):
+    blocks = body["blocks"]
+    seen, post = set(), []
+    stack = [(0, iter(_succs(blocks[0])))]
+    seen.add(0)
+    while stack:
+        bb, it = stack[-1]
+        adv = False
+        for s in it:
+            if s is not None and s not in seen and s < len(blocks):
+                seen.add(s)
+                stack.append((s, iter(_succs(blocks[s]))))
+                adv = True
+                break
+        if not adv:
+            post.append(bb)
+            stack.pop()
+    return post[::-1]
+
+
+def _succs(blk):
+    t = blk["term"]
+    out = [tb for _, tb in t.get("targets", [])]
+    for k in ("to", "else", "resume", "imag"):
+        if isinstance(t.get(k), int):
+            out.append(t[k])
+    return out
